@@ -363,7 +363,7 @@ theorem foldl_count (L : CountLaws α) : ∀ (bs : List Bool) (c : Nat),
     simp only [List.map_cons, List.foldl_cons]
     rw [ofBool_eq_ofNat, L.add_ofNat, foldl_count L bs]
     congr 1
-    cases b <;> simp [List.count_cons] <;> omega
+    cases b <;> simp [List.count_cons]; omega
 
 theorem all_zipWith_iff {β : Type} (p : β → β → Bool) : ∀ (l1 l2 : List β),
     (List.zipWith p l1 l2).all id = true ↔ ∀ (i : Nat) x y, l1[i]? = some x → l2[i]? = some y → p x y = true
@@ -394,7 +394,7 @@ theorem equals_same (a b : Tensor α) (ha : a.WF) (hb : b.WF) (hd : a.dims = b.d
   have hl : a.data.length = b.data.length := by rw [ha.1, hb.1, hd]
   simp only [vEquals, validDimsMatch, hd, beq_self_eq_true, if_true, Tensor.zipRaw, hl, and_self, Option.map_some,
     Out.ofOpt, Tensor.sum, Tensor.fold, Tensor.numElems, Cmp.fn]
-  rw [← hd, ← ha.1]
+  rw [← hb.1]
 
 /-- **`Equals`, as a Boolean**: for well-formed operands of equal dims the result is `ok` of "every position
     compares equal (`Scalar.near`)" — both the `true` and the `false` answers are characterised. -/
@@ -488,7 +488,8 @@ theorem countLaws_int : CountLaws Int where
 
 theorem near_int (x y : Int) : Scalar.near x y = decide (x = y) := by
   show decide ((if x - y < 0 then -(x - y) else x - y) ≤ (if (240 : Nat) = 0 then ((1 : Nat) : Int) else 0)) = decide (x = y)
-  rw [if_neg (by decide), Bool.eq_iff_iff, decide_eq_true_eq, decide_eq_true_eq]
+  have e : (if (240 : Nat) = 0 then ((1 : Nat) : Int) else 0) = 0 := by decide
+  rw [e, Bool.eq_iff_iff, decide_eq_true_eq, decide_eq_true_eq]
   split <;> omega
 
 /-- over `Int`, for **all** well-formed operands: `Equals` answers `true` exactly when the tensors are equal -/
@@ -574,7 +575,7 @@ theorem equals_iff_real_partial :
     ∃ a b : Tensor ℝ, a.WF ∧ b.WF ∧ a.dims = b.dims ∧ vEquals a b = .ok true ∧ a.data ≠ b.data := by
   have hc : (0 : ℝ) < 1 / (10 : ℝ) ^ 240 := by positivity
   refine ⟨⟨[1], [0]⟩, ⟨[1], [1 / (10 : ℝ) ^ 240]⟩, by decide, ⟨rfl, by decide⟩, rfl, ?_, ?_⟩
-  · rw [equals_iff_real _ _ (by decide) ⟨rfl, by decide⟩ rfl]
+  · rw [equals_iff_real ⟨[1], [0]⟩ ⟨[1], [1 / (10 : ℝ) ^ 240]⟩ (by decide) ⟨rfl, by decide⟩ rfl]
     intro i x y hx hy
     cases i with
     | zero =>
